@@ -70,7 +70,7 @@ def run(ctx):
         a = AUDIT[name]
         cls = a['cls']
         for rep in range(reps):
-            w = World(rnd)
+            w = World(rnd, ts='any')
             g = gen.ProgGen(w, rnd)
             if cls in ('SYS0', 'SYS1', 'SYS2', 'SPAWN', 'RENAMEAT', 'LINKAT', 'SYMLINKAT', 'FSSNAP'):
                 mk = lambda q, t=1: w.sys(name, q, t)
@@ -115,7 +115,7 @@ def run(ctx):
                     win_cases.append(('alone_%s_%d_cut%d' % (name, rep, cut), w, stream[cut:]))
     # ---- (b) consumers x providers
     for i in range(200 if ctx.quick else 3000):
-        w = World(rnd)
+        w = World(rnd, ts='any')
         g = gen.ProgGen(w, rnd, noise=0.0)
         t = 1
         kind = i % 5
@@ -145,7 +145,7 @@ def run(ctx):
     # ---- (c) noisy streams and all their dropped prefixes
     pipeline_traces = 0
     for i in range(150 if ctx.quick else 3000):
-        w = World(rnd)
+        w = World(rnd, ts='any')
         g = gen.ProgGen(w, rnd, ntids=3, noise=0.3)
         progs = [g.program(t, rnd.randrange(1, 4)) for t in (1, 2, 3)]
         stream = gen.interleave(rnd, progs)[:50]
